@@ -104,7 +104,7 @@ impl Backend for ShapeBucket {
         }
         if self.stall_ms > 0 && core.tape.draw(12) == 11 {
             // complete and well-formed, just slow: two frames, the second one late
-            plan.body = s3sim::BodyPlan { cut_at: None, frame: 200, frame_delay_ms: self.stall_ms };
+            plan.body = s3sim::BodyPlan { cut_at: None, frame: 200, frame_delay_ms: self.stall_ms, empty_frame_every: 0 };
             core.ctx.count("fault.stalled_body");
         }
         plan
